@@ -95,9 +95,9 @@ pub proof fn filter_tag_numbers_rfc4511()
     proof { if i@.len() > 0 { lemma_run_bounds(i@.skip(1), p_anh()); } }
 //@ insert before "let (i, _) = verify_val(be_u8"
         let ghost i0 = i@;
-//@ insert before "let (i, _) = take_while(is_alnum_hyphen)(i)?;"
+//@ insert before "let (i, _) = take_while("
         let ghost i1 = i@;
-//@ insert after "let (i, _) = take_while(is_alnum_hyphen)(i)?;"
+//@ insert after "let (i, _) = take_while("
         proof {
             let k = choose|k: int| #[trigger] wit(k) && 0 <= k <= i1.len()
                 && (forall|j: int| 0 <= j < k ==> is_alnum_hyphen.ensures((#[trigger] i1[j],), true))
